@@ -13,6 +13,8 @@
 (* `inp` is what the ROM is provisioned with and what the builder was asked for: root-of-trust set, encryption   *)
 (* mode, access rights, and the header fields and command list supplied to the builder.  The decoded content is  *)
 (* compared with it command by command (clauses marked "= input").                                              *)
+(* The root-of-trust set is given by its size, the key used and the VALUE CLASS of the key at every position      *)
+(* (inp.rk, inp.ik: Sb31Format!KeyClasses - keys with leading zero bytes in a coordinate are part of the domain). *)
 (* Words that may have bit 31 set are pairs of 16-bit limbs <<hi, lo>> (TLC integers are 32 bit).                *)
 EXTENDS Sb31Format
 
@@ -84,6 +86,9 @@ RootKeyRecord(e) ==
   /\ e.keyInTable                                  \* H(root key) is entry `used` of the table
   /\ e.rotkthOk                                    \* H(table) (one key: H(key)) is the provisioned root-of-trust hash
   /\ In(e.nKeys = inp.nkeys /\ e.used = inp.used /\ e.curveLen = inp.curve /\ e.ca = ~inp.isk)      \* = input
+  \* the record carries the supplied key with both coordinates at the full width of the curve: a leading zero byte of X / Y
+  \* is on the wire (and under the hash - keyInTable / rotkthOk are evaluated over these 2 * curveLen bytes)      (= input)
+  /\ In(e.keyLz = Lz(inp.rk[inp.used + 1]))
   /\ rkrEnd' = e.end /\ rootLen' = 2 * e.curveLen /\ signerLen' = 2 * e.curveLen
   /\ certEnd' = e.end
   /\ st' = IF e.ca THEN "CertEnd" ELSE "Isk"
@@ -100,6 +105,7 @@ IskCert(e) ==
   /\ e.sigLen = rootLen /\ e.ok
   /\ e.end = e.signedTo + e.sigLen
   /\ In(e.iskLen = inp.iskCurve /\ e.userDataLen = inp.udLen /\ e.udSha = inp.udSha /\ e.constraints = inp.constraints)   \* = input
+  /\ In(e.iskLz = Lz(inp.ik))                                          \* the ISK at full width, as supplied      (= input)
   /\ certEnd' = e.end /\ signerLen' = 2 * e.iskLen
   /\ st' = "CertEnd"
   /\ UNCHANGED <<inp, h, ts, b0Len, rkrEnd, rootLen, covTo, blk, secLen, cur, ncmd>>
